@@ -269,7 +269,20 @@ def build_gsc(spec, stack_layers):
     raise ValueError(k)
 
 
-def build_sprout(spec):
+SHARED_MECHANISMS = {}
+
+
+def build_sprout(spec, share_key=None):
+    """``share_key``: one mechanism object shared by several trees (as test/config.py does with its module-level
+    mechanisms); the caller clears SHARED_MECHANISMS when the group of runs is over."""
+    if share_key is not None:
+        if share_key not in SHARED_MECHANISMS:
+            SHARED_MECHANISMS[share_key] = _build_sprout(spec)
+        return SHARED_MECHANISMS[share_key]
+    return _build_sprout(spec)
+
+
+def _build_sprout(spec):
     if spec.get("factory") == "nbc":
         return get_NBC_sprout(
             gen_dist_factor=float(spec["gen_dist_factor"]),
@@ -323,7 +336,7 @@ def build_config(plan):
     for li, ls in enumerate(plan["levels"]):
         levels.append(build_level(ls, tops[plan["level_stack"][li]]))
     gsc = build_gsc(plan["gsc"], stack_layers)
-    sprout = build_sprout(plan["sprout"])
+    sprout = build_sprout(plan["sprout"], plan.get("share_key"))
     options = {}
     for k, v in plan.get("options", {}).items():
         options[k] = v
